@@ -59,6 +59,13 @@ impl TraitHandler for CloneEnumHandler {
                 variants.push((variant, variant_fields));
             }
 
+            // when `Copy` is educed too, the `Copy` impl shares the where clause of this impl, so every field type has to be bound by `Copy`
+            #[cfg(feature = "Copy")]
+            let copy_is_educed = traits.contains(&Trait::Copy);
+
+            #[cfg(not(feature = "Copy"))]
+            let copy_is_educed = false;
+
             #[cfg(feature = "Copy")]
             let contains_copy = !has_custom_clone_method && traits.contains(&Trait::Copy);
 
@@ -115,6 +122,10 @@ impl TraitHandler for CloneEnumHandler {
                                     .extend(quote!(#field_name_real: #field_name_dst,));
 
                                 if let Some(clone) = field_attribute.method.as_ref() {
+                                    if copy_is_educed {
+                                        clone_types.push(&field.ty);
+                                    }
+
                                     cl_fields_token_stream.extend(quote! {
                                         #field_name_real: #clone(#field_name_src),
                                     });
@@ -165,6 +176,10 @@ impl TraitHandler for CloneEnumHandler {
                                 pattern2_token_stream.extend(quote!(#field_name_dst,));
 
                                 if let Some(clone) = field_attribute.method.as_ref() {
+                                    if copy_is_educed {
+                                        clone_types.push(&field.ty);
+                                    }
+
                                     fields_token_stream.extend(quote! (#clone(#field_name_src),));
                                     body_token_stream.extend(
                                         quote!(*#field_name_src = #clone(#field_name_dst);),
@@ -215,7 +230,7 @@ impl TraitHandler for CloneEnumHandler {
 
             bound = type_attribute.bound.into_where_predicates_by_generic_parameters_check_types(
                 &ast.generics.params,
-                &syn::parse2(if contains_copy {
+                &syn::parse2(if copy_is_educed {
                     quote!(::core::marker::Copy)
                 } else {
                     quote!(::core::clone::Clone)
